@@ -190,9 +190,19 @@ def case_constructor(ctx, c, classes, fams):
             nobj = nlat; nin = max(nin, 1)
         To = Rec(numpy.eye(nlat) if default_obj else g.normal(size=(nobj, nlat))); Ti = Rec(g.normal(size=(nin, nlat)), off=float(g.normal()), relu=True); Te = Rec(g.normal(size=(neq, nlat)))
         wo = g.choice([-2.0, -1.0, 1.0, 0.5], nobj); wi = g.uniform(0.5, 2.0, nin); we = g.uniform(0.5, 2.0, neq)
+        wform = ""
+        if g.random() < 0.35:
+            # weights given as scalars (documented: a real number is repeated for every objective / constraint), among them
+            # exactly zero (a family switched off) and integers; arrays may hold exact zeros too
+            wo = [0.0, -1.0, 2.5, 1, 0][int(g.integers(5))]
+            wi = [0.0, 2.0, 0, 1.5][int(g.integers(4))]
+            we = [0.0, 3.0, 0, 0.5][int(g.integers(4))]
+            wform = "/scalar weights (incl. exactly zero)"
+        elif g.random() < 0.2:
+            wo = wo.copy(); wo[int(g.integers(nobj))] = 0.0; wform = "/weight vector with an exact zero"
         kwo = {"tag": int(g.integers(100))}
         site = cname
-        icls = "%s encoding%s" % (enc, "/default objective transformation" if default_obj else "")
+        icls = "%s encoding%s%s" % (enc, "/default objective transformation" if default_obj else "", wform)
         space = None
         if enc == "Subset" and g.random() < 0.4:
             others = numpy.setdiff1d(numpy.arange(n), members)
